@@ -340,6 +340,8 @@ Definition c04_run (v : val) : val :=
     let l := if vint (vnth 1 v) =? 18 then
                FieldModel.l_senc (vint (vnth 3 v)) (Z.to_nat (vint (vnth 4 v)))
                  (map (fun c => if c <? 0 then None else Some (Z.to_nat c)) (vints (vnth 7 v)))
+             else if vint (vnth 1 v) =? 19 then
+               match FieldModel.emsg_layout (vints (vnth 6 v)) with Some l => l | None => [FieldModel.FB (S (length (vints (vnth 6 v))))] end
              else FieldModel.layout_of (vint (vnth 1 v)) (vint (vnth 2 v)) (vint (vnth 3 v)) (Z.to_nat (vint (vnth 4 v))) (Z.to_nat (vint (vnth 5 v))) in
     match FieldModel.dec_fields l (vints (vnth 6 v)) with
     | Some (vs, rest) =>
